@@ -45,6 +45,22 @@ def oracle(p):
         if prev is not None and op[0] == 'Receive' and all(e[0][0] == 'Priority' for e in op[1]) and prev[3] != 3:
             if prev[5] != parts[5] or prev[4] != parts[4] or prev[8] != parts[8]:
                 bad.append({'rule': 'a PRIORITY frame opened or closed a stream', 'step': i, 'detail': {'before': [prev[5], prev[4]], 'after': [parts[5], parts[4]]}})
+        # a peer HEADERS re-using the id of a stream that is closed and already dropped from the stream table: a stream error
+        # (RST_STREAM, no exception) if that stream was reset, a STREAM_CLOSED connection error if it ended normally
+        if prev is not None and op[0] == 'Receive' and prev[3] in (1, 2) and len(op[1]) == 1 and op[1][0][0][0] == 'Headers':
+            sid = op[1][0][0][1]
+            how = dict((x[0], x[1]) for x in prev[4][1]).get(sid)
+            live = any(st[0] == sid for st in prev[8])
+            if how is not None and not live:
+                if how in (3, 4) and not _conn.ok(parts):
+                    bad.append({'rule': 'HEADERS re-using the id of a reset stream was a connection error instead of a stream error', 'step': i,
+                                'detail': {'stream': sid, 'closed_by': how, 'outcome': parts[0]}})
+                if how in (3, 4) and _conn.ok(parts) and not any(fr[0] == 3 and fr[1] == sid for fr in frames[i]):
+                    bad.append({'rule': 'HEADERS re-using the id of a reset stream was not answered with RST_STREAM', 'step': i,
+                                'detail': {'stream': sid, 'closed_by': how, 'frames': frames[i][:3]}})
+                if how in (1, 2) and not (_conn.err_name(parts) == 'StreamClosedError' and parts[0][2] == 5):
+                    bad.append({'rule': 'HEADERS re-using the id of a stream that ended normally was not a STREAM_CLOSED connection error', 'step': i,
+                                'detail': {'stream': sid, 'closed_by': how, 'outcome': parts[0]}})
         prev = parts
     return bad
 
@@ -74,6 +90,23 @@ def scenarios(run):
         else:
             out.append((cfg, [('Initiate',), ('Receive', [(('Headers', M, False, None, ('Decoded', t2.REQ)), None, {})]),
                               ('PushStream', M, M - 1, t2.REQ, 0), ('NextStreamId',), ('PushStream', M, M + 1, t2.REQ, 0)]))
+        # re-used ids of pushed streams: a server promises an id above / below the client's highest id, the pushed stream is reset or
+        # ends normally, the client opens another stream (closed streams are then dropped from the table), HEADERS arrive on the old id
+        if not client:
+            RX = lambda *fs: ('Receive', [(f, None, {}) for f in fs])
+            for promised, nxt in ((4, 3), (2, 3), (6, 9), (8, 5)):
+                for ending in ('reset', 'peer_reset', 'ended'):
+                    o = [('Initiate',), RX(('Settings', False, []), ('Headers', 1, False, None, ('Decoded', t2.REQ))),
+                         ('PushStream', 1, promised, t2.REQ, 0)]
+                    if ending == 'reset':
+                        o += [('ResetStream', promised, 8)]
+                    elif ending == 'peer_reset':
+                        o += [RX(('RstStream', promised, 8))]
+                    else:
+                        o += [('SendHeaders', promised, t2.RESP, 0, True, None, None, None)]
+                    o += [RX(('Headers', nxt, False, None, ('Decoded', t2.REQ))), ('OpenInbound',),
+                          RX(('Headers', promised, False, None, ('Decoded', t2.REQ))), ('OpenInbound',)]
+                    out.append((cfg, o))
         # stream errors vs connection errors for re-used ids
         ops2 = list(t2.zoo(client))
         for sid in (5, 7, 9, 3):
